@@ -88,9 +88,10 @@ pub fn check(prop: &str, tier: Tier, seed: u64, known: &Known) -> CheckResult {
     // thorough tier: coverage-guided campaigns with the same oracles (E3)
     if tier == Tier::Thorough && std::env::var("VF_NO_FUZZ").is_err() {
         let campaigns: Vec<(&'static str, &str, u64)> = match prop {
-            "C16" => vec![("C16", "tape", 3_000_000), ("C16", "text", 2_000_000)],
-            "C17" => vec![("C17", "tape", 2_000_000)],
-            "C19" => vec![("C19", "tape", 1_000_000), ("C19", "text", 1_000_000)],
+            // ~550 executions / s per libFuzzer process (the oracle expands, parses and judges inside the target): 8 workers
+            "C16" => vec![("C16", "tape", 1_200_000), ("C16", "text", 600_000)],
+            "C17" => vec![("C17", "tape", 800_000)],
+            "C19" => vec![("C19", "tape", 400_000), ("C19", "text", 400_000)],
             _ => vec![],
         };
         for (p, target, runs) in campaigns {
